@@ -15,6 +15,7 @@ import SharkVerif.Lemmas.BatchArith
 import SharkVerif.Lemmas.Dataset
 import SharkVerif.Model.CV
 import SharkVerif.Props.C03
+import SharkVerif.Lemmas.Regroup
 namespace SharkVerif.C12
 open SharkVerif.CheckedNat SharkVerif.Gen.BatchArith SharkVerif.BatchArith SharkVerif.Dataset SharkVerif.CV
 
@@ -233,6 +234,79 @@ theorem shape_kept (set : LabeledData ι κ) (k : Nat) (assign : List (Nat × Na
   simp only [regroup, bind_ok, require_ok, ofOpt_ok, CVFolds.ofStarts, pure_ok] at h
   obtain ⟨_, _, ⟨_, _, _⟩, _, _, _, _, _, rfl⟩ := h
   exact ⟨rfl, rfl⟩
+
+/-- length of what `pick` (= `subBatch(setView, positions)`) returns -/
+theorem pick_length (set : LabeledData ι κ) (pos : List Nat) (els : List (ι × κ)) (h : pick set pos = .ok els) :
+    els.length = pos.length := by
+  simp only [pick, View.subBatch, bind_ok, ofOpt_ok, View.subset, pure_ok] at h
+  obtain ⟨v, ⟨ixs, hix, rfl⟩, hels⟩ := h
+  have h1 := mapM_except_length _ _ _ hix
+  have h2 := mapM_option_id_length _ _ hels
+  simp only [View.elements, List.length_map, List.length_range, View.size] at h2
+  omega
+
+/-- **fold_elements_partition** (model `regroup`, the common tail of createCVIndexed / createCVFullyIndexed /
+createCVIID / createCVSameSizeBalanced).  Let `els` be the elements picked at the processing positions and
+`tagged` = those elements with the fold each was assigned to.  If the source returns no batch for zero elements
+(`hz`, false on the unrepaired source: F1) then the call succeeds in building a reorganised dataset whose
+inputs and labels are partitioned identically, whose (input, label) sequence is `ordered` = fold 0's elements,
+then fold 1's, … each in processing order — so every element sits in the fold requested for it, with the label
+it was picked with — and `ordered` is a permutation of the picked elements: each exactly once. -/
+theorem fold_elements_partition (set : LabeledData ι κ) (k : Nat) (assign : List (Nat × Nat)) (bs : Nat) (hbs : 0 < bs)
+    (hz : optimalBatchSizes 0 bs = some []) (f : CVFolds ι κ) (h : regroup set k assign bs = .ok f) :
+    ∃ els, pick set (assign.map (·.1)) = .ok els ∧ els.length = assign.length ∧
+      let tagged := List.zip els (assign.map (·.2))
+      let ordered := (List.range k).flatMap fun p => (tagged.filter (·.2 = p)).map (·.1)
+      C03.WF f.dataset ∧ C03.pairs f.dataset = ordered ∧ ordered.Perm els := by
+  simp only [regroup, bind_ok, require_ok, ofOpt_ok, List.all_eq_true, decide_eq_true_eq] at h
+  obtain ⟨_, hall, ⟨nb, starts', sizes⟩, hbp, els, hpick, hfolds⟩ := h
+  have hlen := pick_length set _ els hpick
+  simp only [List.length_map] at hlen
+  refine ⟨els, hpick, hlen, ?_⟩
+  intro tagged ordered
+  -- the batch sizes computed for the folds
+  obtain ⟨hspec, hsums⟩ := batchPartitioning_with_empty
+    ((List.range k).map fun p => (assign.filter (fun a => a.2 = p)).length) bs hbs hz
+  have hbp' : batchPartitioning ((List.range k).map fun p => (assign.filter (fun a => decide (a.2 = p))).length) [] [] bs
+      = some (nb, starts', sizes) := hbp
+  rw [hspec] at hbp'
+  simp only [Option.some.injEq, Prod.mk.injEq] at hbp'
+  obtain ⟨_, _, hsizes⟩ := hbp'
+  -- total of the batch sizes = number of assigned elements
+  have hsum : sizes.sum = assign.length := by
+    rw [← hsizes, sum_flatMap]
+    have : (((List.range k).map fun p => (assign.filter (fun a => decide (a.2 = p))).length).map
+        fun x => (obs0 bs x).sum) = (List.range k).map fun p => (assign.filter (fun a => decide (a.2 = p))).length := by
+      rw [List.map_map]
+      apply List.map_congr_left
+      intro p _
+      exact hsums _ (List.mem_map.mpr ⟨p, by assumption, rfl⟩)
+    rw [this]
+    exact sum_group_lengths (fun a : Nat × Nat => a.2) k assign (fun a ha => hall a ha)
+  -- tags of the tagged elements are below k
+  have htag : ∀ x ∈ tagged, x.2 < k := by
+    intro x hx
+    have := (List.of_mem_zip hx).2
+    simp only [List.mem_map] at this
+    obtain ⟨a, ha, hax⟩ := this
+    rw [← hax]; exact hall a ha
+  have hperm : ordered.Perm (tagged.map (·.1)) := by
+    have := (perm_flatMap_filter (fun x : (ι × κ) × Nat => x.2) k tagged htag).map (·.1)
+    simpa [ordered, List.map_flatMap] using this
+  have htm : tagged.map (·.1) = els := by
+    apply List.map_fst_zip
+    simp [hlen]
+  have hol : ordered.length = assign.length := by
+    rw [hperm.length_eq, htm, hlen]
+  simp only [CVFolds.ofStarts, bind_ok, ofOpt_ok, pure_ok] at hfolds
+  obtain ⟨_, _, rfl⟩ := hfolds
+  have hs1 : sizes.sum = (ordered.map (·.1)).length := by simp [hsum, hol]
+  have hs2 : sizes.sum = (ordered.map (·.2)).length := by simp [hsum, hol]
+  refine ⟨?_, ?_, htm ▸ hperm⟩
+  · show (splitBySizes _ sizes).map List.length = (splitBySizes _ sizes).map List.length
+    rw [splitBySizes_lengths _ _ (Nat.le_of_eq hs1), splitBySizes_lengths _ _ (Nat.le_of_eq hs2)]
+  · show List.zip (splitBySizes _ sizes).flatten (splitBySizes _ sizes).flatten = ordered
+    rw [splitBySizes_flatten _ _ hs1, splitBySizes_flatten _ _ hs2, zip_map_fst_snd]
 
 /-! ## non-vacuity -/
 example : batchPartitioning [3, 5] [] [] 2 = some (5, [0, 2], [2, 1, 2, 2, 1]) := by decide
